@@ -5,6 +5,6 @@ wt=$(mktemp -d /tmp/seedrun-XXXXXX)
 rmdir "$wt"
 git -C /repo worktree add -q --detach "$wt" HEAD || exit 2
 if ! git -C "$wt" apply "$patch"; then echo "PATCH DOES NOT APPLY"; git -C /repo worktree remove --force "$wt"; exit 3; fi
-cd /verif && VERIF_REPO="$wt" ./check "$id" "$tier" 2>&1 | grep -E "VIOLATION|KNOWN-FINDING|violation:|done in|broken|mismatch" | head -20
+cd /verif && VERIF_REPO="$wt" ./check "$id" "$tier" 2>&1 | grep -E "VIOLATION|KNOWN-FINDING|violation:|done in|broken|mismatch" | head -80
 rc=$?
 git -C /repo worktree remove --force "$wt"
